@@ -47,6 +47,9 @@ func runC20(c *core.Ctx) {
 func constBoundsGuarded(c *core.Ctx, rule string, f *ssa.Function, isTarget func(ssa.Value) bool, what string) int {
 	n := 0
 	check := func(in ssa.Instruction, x ssa.Value, need int64, desc string) {
+		if need <= 0 {
+			return // x[:0] needs nothing
+		}
 		n++
 		pred := eng.Pred{Name: fmt.Sprintf("len >= %d", need), Match: func(a eng.Atom) (bool, bool) {
 			if a.Op != token.LSS {
